@@ -197,34 +197,34 @@ int64_t cmb_resource_acquire(struct cmb_resource *rp)
     cmb_logger_info(stdout, "Acquiring resource %s", rbp->name);
 
     struct cmb_process *pp = cmb_process_current();
-    if (rp->holder == NULL) {
-        /* Easy, grab it */
-        resource_grab(rp, pp);
-        record_sample(rp);
-        cmb_logger_info(stdout, "Acquired %s", rbp->name);
-        return CMB_PROCESS_SUCCESS;
-    }
+    while (true) {
+        if (rp->holder == NULL) {
+            /* Easy, grab it */
+            resource_grab(rp, pp);
+            record_sample(rp);
+            cmb_logger_info(stdout, "Acquired %s", rbp->name);
+            return CMB_PROCESS_SUCCESS;
+        }
 
-    /* Wait at the front door until resource becomes available */
-     const int64_t ret = cmb_resourceguard_wait(&(rp->guard),
-                                                is_available,
-                                                NULL);
+        /* Wait at the front door until resource becomes available */
+        const int64_t ret = cmb_resourceguard_wait(&(rp->guard),
+                                                   is_available,
+                                                   NULL);
 
-    /* Now we got past the front door, or perhaps thrown out by the guard */
-    if (ret == CMB_PROCESS_SUCCESS) {
-        /* All good, grab the resource */
-        resource_grab(rp, pp);
-        record_sample(rp);
-        cmb_logger_info(stdout, "Acquired %s", rbp->name);
+        /*
+         * Now we got past the front door, or perhaps thrown out by the guard.
+         * If we got past, look again: Somebody else may have taken the resource
+         * between the release that woke us and now (e.g., the previous holder
+         * acquiring it again at once). Then it is back to the waiting room.
+         */
+        if (ret != CMB_PROCESS_SUCCESS) {
+            cmb_logger_info(stdout,
+                            "Did not acquire %s, code %" PRId64,
+                            rbp->name,
+                            ret);
+            return ret;
+        }
     }
-    else {
-        cmb_logger_info(stdout,
-                        "Did not acquire %s, code %" PRId64,
-                        rbp->name,
-                        ret);
-    }
-
-    return ret;
 }
 
 /*
